@@ -109,13 +109,19 @@ def _materialised(fn, pv, d, s, depth):
 def normalize_bool_cond(c):
     """(term, True/False) for conditions on boolean switch operands"""
     op, kind, v = c
-    if kind == "eq":
+    r = None
+    if kind == "eq" and v in (0, 1, True, False):
+        r = (op, bool(v))
+    elif kind == "eq":
         return op, bool(v)
-    if kind == "ne" and v == (0,):
-        return op, True
-    if kind == "ne" and v == (1,):
-        return op, False
-    return None
+    elif kind == "ne" and v == (0,):
+        r = (op, True)
+    elif kind == "ne" and v == (1,):
+        r = (op, False)
+    # `!p` being true is `p` being false
+    while r is not None and isinstance(r[0], tuple) and r[0] and r[0][0] == "unop" and r[0][1] == "Not":
+        r = (r[0][2], not r[1])
+    return r
 
 
 def outcomes(fn, pv):
